@@ -368,19 +368,19 @@ func report(w *vc.World, out *checkOutcome, seed int, writeEvidence, writeExpect
 			"wall_s":     round3(out.wall),
 			"violations": len(out.violations),
 			"coverage": map[string]any{
-				"obligations":           total,
-				"discharged":            proved,
-				"checker_cmd":           fmt.Sprintf("bin/govc check --property %s --tier %s", prop, out.tier),
-				"trusted_base":          trustedList,
+				"obligations":              total,
+				"discharged":               proved,
+				"checker_cmd":              fmt.Sprintf("bin/govc check --property %s --tier %s", prop, out.tier),
+				"trusted_base":             trustedList,
 				"functions_under_contract": out.funcs,
-				"lemmas_proved":         out.lemmas,
-				"obligations_by_kind":   byKind,
-				"discharged_by_solver":  bySolver,
-				"solver_seconds":        round3(solverSecs),
-				"known_findings_hit":    out.known,
-				"samples":               samples,
-				"explanation":           propScope[prop],
-				"contract_files":        w.ContractFiles,
+				"lemmas_proved":            out.lemmas,
+				"obligations_by_kind":      byKind,
+				"discharged_by_solver":     bySolver,
+				"solver_seconds":           round3(solverSecs),
+				"known_findings_hit":       out.known,
+				"samples":                  samples,
+				"explanation":              propScope[prop],
+				"contract_files":           w.ContractFiles,
 			},
 			"assumptions": trustedList,
 		}
